@@ -35,6 +35,7 @@ def wrap_exact(x, c, P):
 
 
 # ------------------------------------------------------------------------------ generator
+EB_FOCUS = {"use_grids": True, "p_expand": 0.0, "p_eb": 1.0, "p_restart": 0.12, "p_reconf": 0.2, "p_it0": 0.6, "equil": [3, 6, 12, 20, 40]}
 RECONF_FOCUS = {"p_restart": 0.2, "p_reconf": 0.7, "p_out": 0.35, "p_eb": 0.0}
 REBIN_FOCUS = {"use_grids": True, "p_expand": 0.0, "sig_mode": False, "keep": True, "p_eb": 0.0, "periodic": False,
                "p_restart": 0.15, "p_out": 0.4, "big_grids": True}
@@ -104,14 +105,15 @@ def gen_scn(r, k, forced=None):
         nt = 1
         for v in vars_:
             nt *= v["nx"]
-        c["eb"] = {"raw": [r.choice([0.0, 0.5, 1.0, 1.0, 2.0, 4.0, 8.0]) for _ in range(nt)], "equil": r.choice([0, 0, 3, 6, 20])}
+        c["eb"] = {"raw": [r.choice([0.0, 0.5, 1.0, 1.0, 2.0, 4.0, 8.0]) for _ in range(nt)], "equil": r.choice(f.get("equil", [0, 0, 3, 6, 20]))}
         if not any(c["eb"]["raw"]):
             c["eb"]["raw"][0] = 1.0
     c["pmf"] = use_grids and not c["eb"] and r.random() < f.get("p_pmf", 0.2)
     c["pmf_keep"] = c["pmf"] and r.random() < 0.4
     c["gfreq_explicit"] = use_grids and f.get("gfreq_explicit", r.random() < 0.4)
     c["gfreq"] = f.get("gfreq", r.choice([1, 2, 3, 4, 6])) if c["gfreq_explicit"] else c["freq"]
-    c["it0"] = r.randint(0, 9) if r.random() < 0.3 else 0
+    c["it0"] = r.randint(0, 9) if r.random() < f.get("p_it0", 0.3) else 0
+    c["binary"] = r.random() < 0.35          # format of the state files (formatted text or binary stream)
     nsteps = r.randint(8, 30)
     p_out = f.get("p_out", r.choice([0.0, 0.1, 0.25]))
     p_save = f.get("p_save", r.choice([0.0, 0.0, 0.08]))
@@ -235,17 +237,21 @@ def gen_scn(r, k, forced=None):
 
 
 def gen_par(r, c):
-    """hill parameters of a later run: hillWidth or gaussianSigmas, hillWeight, newHillFrequency"""
+    """hill parameters of a later run: hillWidth or gaussianSigmas, hillWeight, newHillFrequency, gridsUpdateFrequency,
+    wellTempered on or off, biasTemperature"""
+    q = {"W": r.choice([0.125, 0.5, 1.0, 2.0]), "freq": r.choice([1, 1, 2, 3]), "gfreq": r.choice([1, 1, 2, 3, 4]),
+         "wt": c["wt"] if r.random() < 0.6 else not c["wt"], "bt": r.choice([300.0, 1000.0, 3000.0])}
     if r.random() < 0.3:
-        return {"sig_mode": True, "hw": 0.0, "sigmas": [v["w"] * r.choice([0.25, 0.5, 1.0, 1.5, 2.0]) for v in c["vars"]],
-                "W": r.choice([0.125, 0.5, 1.0, 2.0]), "freq": r.choice([1, 1, 2, 3])}
-    hw = r.choice([0.5, 1.0, 1.5, 2.0, 3.0, 4.0])
-    return {"sig_mode": False, "hw": hw, "sigmas": [v["w"] * hw / 2.0 for v in c["vars"]],
-            "W": r.choice([0.125, 0.5, 1.0, 2.0]), "freq": r.choice([1, 1, 2, 3])}
+        q.update({"sig_mode": True, "hw": 0.0, "sigmas": [v["w"] * r.choice([0.25, 0.5, 1.0, 1.5, 2.0]) for v in c["vars"]]})
+    else:
+        hw = r.choice([0.5, 1.0, 1.5, 2.0, 3.0, 4.0])
+        q.update({"sig_mode": False, "hw": hw, "sigmas": [v["w"] * hw / 2.0 for v in c["vars"]]})
+    return q
 
 
 def par0(c):
-    return {"sig_mode": c["sig_mode"], "hw": c["hw"], "sigmas": [v["sigma"] for v in c["vars"]], "W": c["W"], "freq": c["freq"]}
+    return {"sig_mode": c["sig_mode"], "hw": c["hw"], "sigmas": [v["sigma"] for v in c["vars"]], "W": c["W"], "freq": c["freq"],
+            "gfreq": c["gfreq"], "wt": c["wt"], "bt": c["bt"]}
 
 
 def step_events(c):
@@ -330,17 +336,18 @@ def config_text(c, geom=None, rebin=False, par=None):
         if c.get("pmf_keep"):
             L.append("  keepFreeEnergyFiles on")
         if c["gfreq_explicit"] or par is not None:
-            L.append("  gridsUpdateFrequency %d" % c["gfreq"])
+            L.append("  gridsUpdateFrequency %d" % q["gfreq"])
         if c["keep"]:
             L.append("  keepHills on")
         if rebin:
             L.append("  rebinGrids on")
-    if c["wt"]:
-        L += ["  wellTempered on", "  biasTemperature %r" % c["bt"]]
+    if q["wt"]:
+        L += ["  wellTempered on", "  biasTemperature %r" % q["bt"]]
     if c["stepzero"]:
         L.append("  stepZeroData on")
     if c.get("eb"):
         L += ["  ebMeta on", "  targetDistFile %s" % target_file_name(c), "  ebMetaEquilSteps %d" % c["eb"]["equil"]]
+    L += ["  " + t for t in c.get("meta_extra", [])]
     L += ["}", "EOF", "show atomf 0 energy 0 af 1 bias 1"]
     if c.get("eb"):
         L.append("metatarget m")
@@ -399,27 +406,30 @@ def scenario_text(c, dump=True):
     if c["it0"]:
         L.append("setstep %d" % c["it0"])
     L += config_text(c)
+    if c.get("outprefix"):
+        L.append("outprefix %s" % c["outprefix"])
     for d, v in enumerate(c["vars"]):
         if v["kind"] in (1, 2):
             L.append("pos %d 0 0 0" % first[d])
     nstate = 0
     par = None
+    fmt = "binary" if c.get("binary") else "text"
     for e in c["events"]:
         if e[0] == "save":
-            L.append("save text c05.state")
+            L.append("save %s c05.state" % fmt)
             continue
         if e[0] == "pmf":
             L.append("metapmf m")
             continue
         if e[0] == "reload":
             nstate += 1
-            L += ["save text c05l%d.state" % nstate, "load c05l%d.state" % nstate]
+            L += ["save %s c05l%d.state" % (fmt, nstate), "load c05l%d.state" % nstate]
             continue
         if e[0] in ("restart", "rebin", "reconf"):
             # the state is written, a fresh instance reads it (for "rebin": with new boundaries and rebinGrids on; for
             # "reconf": with other hill parameters, which stay for the later runs)
             nstate += 1
-            L += ["metatraj m", "save text c05r%d.state" % nstate, "new"]
+            L += ["metatraj m", "save %s c05r%d.state" % (fmt, nstate), "new"]
             if e[0] == "reconf":
                 par = e[1]
             L += config_text(c, e[1], True, par) if e[0] == "rebin" else config_text(c, None, False, par)
@@ -471,7 +481,8 @@ def model_case(c, xs, dump=True):
             p.append("L")
             continue
         if e[0] == "reconf":
-            p += ["C"] + [V.hexf(t) for t in e[1]["sigmas"]] + [V.hexf(e[1]["hw"]), V.hexf(e[1]["W"]), str(e[1]["freq"])]
+            p += ["C"] + [V.hexf(t) for t in e[1]["sigmas"]] + [V.hexf(e[1]["hw"]), V.hexf(e[1]["W"]), str(e[1]["freq"]),
+                                                                str(e[1]["gfreq"]), "1" if e[1]["wt"] else "0", V.hexf(e[1]["bt"])]
             continue
         if e[0] == "pmf":
             p += ["P", V.hexf(PMF_TEMP)]
@@ -689,8 +700,9 @@ def compare_step(c, im, mo):
     """first differing component between implementation and model at one step, or None"""
     if not close(im["E"], mo["E"]):
         return "energy"
-    if has_restart(c):
+    if has_restart(c) and all(t == t and abs(t) != float("inf") for F in (im["F"], mo["F"]) for f in F for t in f):
         # hill centres read back from a text state differ in the last digits: compare what acts on a unit vector
+        # (a unit vector exactly opposite to a hill centre gives +-inf components on both sides: compared as they are)
         if not force_close(tangential(c, im["F"], im["cv"]), tangential(c, mo["F"], im["cv"])):
             return "force"
     elif not force_close(im["F"], mo["F"]):
@@ -849,7 +861,7 @@ def oracle(c, impl, traj):
             for g in geomp:
                 idx = [i + [b] for i in idx for b in range(g[0])]
             Eb = [esum(c, [[g[1] + v["w"] * (0.5 + b)] for v, g, b in zip(c["vars"], geomp, ix)], tab) for ix in idx]
-            scale = (c["bt"] + PMF_TEMP) / c["bt"] if c["wt"] else 1.0
+            scale = (cur["bt"] + PMF_TEMP) / cur["bt"] if cur["wt"] else 1.0
             exp_ = [(max(Eb) - t) * scale for t in Eb]
             name = "c05p_%s%s.pmf" % (c["id"], (".%d" % st[n][0]) if c.get("pmf_keep") and n >= 0 else (".%d" % c["it0"] if c.get("pmf_keep") else ""))
             if k >= len(dumps) or dumps[k][1] is None or not vec_close(dumps[k][1], exp_) :
@@ -926,15 +938,15 @@ def oracle(c, impl, traj):
                 a = 0
                 for v, b in zip(c["vars"], tb):
                     a = a * v["nx"] + b
-                ebf = 1.0 / target_processed(c)[a]
+                ebf = ebf1 = 1.0 / target_processed(c)[a]
                 if it < c["eb"]["equil"]:
                     lam = (c["eb"]["equil"] - it) / float(c["eb"]["equil"])
                     ebf = lam + (1 - lam) * ebf
                 facts["ebmeta_deposits"] += 1
                 wgt = cur["W"] * ebf
-            if c["wt"]:
+            if cur["wt"]:
                 vhere, _, ins = spec_bias(c, geom, x, tab, pend)
-                wgt = cur["W"] * (ebf * math.exp(-vhere / (c["bt"] * KB)))
+                wgt = cur["W"] * (ebf * math.exp(-vhere / (cur["bt"] * KB)))
                 if c["use_grids"] and not ins:
                     facts["wt_outside"] += 1
             h = (it, wgt, [list(t) for t in x], list(cur["sigmas"]))
@@ -950,32 +962,37 @@ def oracle(c, impl, traj):
                 misaligned = any(v["gper"] and not (g[1] <= xv[0] < g[2]) for v, g, xv in zip(c["vars"], geom, x))
                 eb_outside = bool(c.get("eb")) and any(not (0 <= ffloor((Fr(xv[0]) - Fr(v["lower"])) / Fr(v["w"])) < v["nx"])
                                                         for v, xv in zip(c["vars"], x))
-                if c["wt"] and hetero and close(seen[-1][1], cur["W"] * (ebf * math.exp(-spec_bias(c, geom, x, asconf[0], asconf[1])[0] / (c["bt"] * KB)))):
+                if cur["wt"] and hetero and close(seen[-1][1], cur["W"] * (ebf * math.exp(-spec_bias(c, geom, x, asconf[0], asconf[1])[0] / (cur["bt"] * KB)))):
                     sig = "widths:hills-evaluated-with-the-configured-width-not-their-own"
+                elif c.get("eb") and c["eb"]["equil"] > 0 and (c["it0"] > 0 or restarted) and not cur["wt"] and \
+                        any(close(seen[-1][1], cur["W"] * (lam_ + (1 - lam_) * ebf1))
+                            for lam_ in [max(0.0, (c["eb"]["equil"] - k_) / float(c["eb"]["equil"])) for k_ in range(0, it + 1)]):
+                    # the weight is the one of the ramp at another step than the absolute one
+                    sig = "ebmeta:ramp-not-on-the-absolute-step"
                 elif c.get("eb") and eb_outside:
                     sig = "ebmeta:target-read-out-of-range"
                 elif c.get("eb") and seen[-1][1] != seen[-1][1]:
                     sig = "ebmeta:nan-weight-in-ramp"
-                elif c.get("eb") and not c["wt"]:
+                elif c.get("eb") and not cur["wt"]:
                     sig = "ebmeta:hill-weight"
-                elif c["wt"] and c["use_grids"] and misaligned:
+                elif cur["wt"] and c["use_grids"] and misaligned:
                     sig = "periodic:grid-not-aligned-with-wrapping-interval"
-                elif c["wt"] and c["use_grids"] and not ins:
+                elif cur["wt"] and c["use_grids"] and not ins:
                     sig = "wt:deposit-outside-grid-reads-out-of-range"
-                elif c["wt"] and c["use_grids"] and pend_before and esum(c, x, pend_before) != 0.0:
+                elif cur["wt"] and c["use_grids"] and pend_before and esum(c, x, pend_before) != 0.0:
                     sig = "wt:ignores-unprojected-hills"
-                elif c["wt"] and c["use_grids"] and any(v["expand"] for v in c["vars"]) and geom != geom0:
+                elif cur["wt"] and c["use_grids"] and any(v["expand"] for v in c["vars"]) and geom != geom0:
                     sig = "expand:bins-added-by-expansion-miss-earlier-hills"
                 else:
                     sig = "schedule:hill-weight"
                 return (sig, "step %d (it=%d): hill deposited at %s has weight %r, the property prescribes %r "
                         "(hillWeight %r%s)" % (n, it, x, seen[-1][1], wgt, cur["W"],
-                                               ", times exp(-V/kT) with V the bias at that point" if c["wt"] else ""), n), facts
+                                               ", times exp(-V/kT) with V the bias at that point" if cur["wt"] else ""), n), facts
             pend.append(h)
         elif traj and traj[0][0] == it and (n + 1 == len(st) or st[n + 1][0] != it):
             return ("schedule:extra-hill", "step %d (it=%d, relative %d%s): the module added the hill %s at a step that is not "
                     "eligible (newHillFrequency %d)" % (n, it, rel, ", repeated step" if cont else "", traj[0], cur["freq"]), n), facts
-        if c["use_grids"] and it % c["gfreq"] == 0:
+        if c["use_grids"] and it % cur["gfreq"] == 0:
             if pend:
                 facts["projections"] += 1
             tab += pend
@@ -1066,8 +1083,8 @@ def _var(lower=0.0, nx=8, w=1.0, sigma=1.0, expand=False, **kw):
     return v
 
 
-def _par(sigmas, hw=0.0, W=1.0, freq=1, sig_mode=False):
-    return {"sig_mode": sig_mode, "hw": hw, "sigmas": list(sigmas), "W": W, "freq": freq}
+def _par(sigmas, hw=0.0, W=1.0, freq=1, sig_mode=False, gfreq=1, wt=False, bt=300.0):
+    return {"sig_mode": sig_mode, "hw": hw, "sigmas": list(sigmas), "W": W, "freq": freq, "gfreq": gfreq, "wt": wt, "bt": bt}
 
 
 def _cfg(cid, vars_, events, **kw):
@@ -1124,6 +1141,11 @@ def witnesses():
         # ebMeta with the default ebMetaEquilSteps 0 and a hill at step 0 (stepZeroData)
         _cfg("w_ebmeta_step0", [_var()], [[3.5], [3.5], [2.5]], stepzero=True,
              eb={"raw": [1.0, 2.0, 4.0, 8.0, 8.0, 4.0, 2.0, 1.0], "equil": 0}),
+        # ebMeta: the ramp runs on the absolute step: a job started at step 5, and one restarted inside / after the ramp
+        _cfg("w_ebmeta_it0", [_var()], [[3.5], [3.5], [0.5], [7.5], [2.5]], it0=5,
+             eb={"raw": [1.0, 2.0, 4.0, 8.0, 8.0, 4.0, 2.0, 1.0], "equil": 20}),
+        _cfg("w_ebmeta_restart", [_var()], [[3.5], [3.5], [0.5], "restart", [0.5], [7.5], [2.5], [1.5], [6.5], "restart", [6.5], [0.5], [5.5]],
+             eb={"raw": [1.0, 2.0, 4.0, 8.0, 8.0, 4.0, 2.0, 1.0], "equil": 6}, binary=True),
         # the free-energy file: plain, and well-tempered with keepFreeEnergyFiles; a hill not yet tabulated is not in it
         _cfg("w_pmf", [_var()], [[3.5], [3.5], [5.25], "pmf", [1.5], "pmf"], pmf=True),
         _cfg("w_pmf_wt", [_var(), _var(nx=4, w=2.0, sigma=2.0)], [[3.5, 4.5], [3.5, 4.5], [5.25, 1.0], "pmf", [1.5, 7.0], "pmf", [1.5, 7.0], "pmf"],
@@ -1138,6 +1160,9 @@ def witnesses():
         _cfg("w_reconf_sigmas", [_var(), _var(nx=4, w=2.0, sigma=2.0)], [[3.5, 4.5], [3.5, 4.5], [0.5, 1.0], ("reconf", _par([0.5, 3.0], sig_mode=True)),
                                                                  [0.5, 1.0], [-0.25, 1.0], [0.5, -0.5], [2.5, 3.0]], gfreq_explicit=True, gfreq=2),
         _cfg("w_reconf_rebin", [_var(nx=12)], [[5.5], [5.5], [6.5], ("reconf", _par([0.5], hw=1.0)), [6.5], [4.5], ("rebin", [(8, 2.5, 10.5)]), [4.5], [2.25], [10.75], [5.0]], keep=True),
+        # wellTempered switched on (biasTemperature 1000), then off again, and gridsUpdateFrequency 1 -> 3, between runs
+        _cfg("w_reconf_wt", [_var()], [[3.5], [3.5], [3.25], ("reconf", _par([1.0], hw=2.0, wt=True, bt=1000.0, gfreq=3)), [3.25], [3.5], [3.0], [-0.25],
+                                      ("reconf", _par([1.0], hw=2.0)), [-0.25], [3.5], [3.5]]),
         _cfg("w_reconf_expand", [_var(expand=True)], [[3.5], [3.5], [1.5], ("reconf", _par([0.5], hw=1.0)), [1.5], [0.25], [-0.25], [-1.5]]),
         # vector variables without grids
         _cfg("w_vec3", [_var(kind=1)], [[[1.0, 0.0, 0.5]], [[1.0, 0.25, 0.5]], [[0.5, 0.25, 0.5]], [[0.5, 0.5, 0.0]]], use_grids=False, wt=True),
@@ -1273,6 +1298,138 @@ def reload_witness(run, exe, d):
                           % ("with" if use_grids else "without", en[3], en[4]), {"kind": "scenario", "scenario": txt})
 
 
+# ------------------------------------------------------------------------------ multiple replicas (oracle only)
+def gen_replica_case(r, k):
+    """two walkers sharing their hills through files: B runs first (alone in the registry), then A, which reads the
+    state and the hills of B at its steps that are multiples of replicaUpdateFrequency"""
+    nd = r.choice([1, 1, 2])
+    f = {"nd": nd, "use_grids": r.random() < 0.8, "p_expand": 0.0, "p_eb": 0.0, "p_restart": 0.0, "p_save": 0.0, "p_pmf": 0.0,
+         "keep": False, "p_vector": 0.0, "periodic": False, "p_out": r.choice([0.1, 0.3])}
+    A = gen_scn(r, "ra%s" % k, dict(f))
+    B = json.loads(json.dumps(A))
+    B["events"] = [tuple(e) for e in gen_scn(r, "x", dict(f, nd=nd))["events"]]
+    # the same variables for both walkers: positions of B drawn around the grid of A
+    lo = [v["lower"] for v in A["vars"]]
+    B["events"] = []
+    for s_ in range(r.randint(4, 12)):
+        B["events"].append(("step", False, [v["lower"] + r.randint(-8, v["nx"] * 4 + 8) * v["w"] / 4 for v in A["vars"]]))
+    for v in A["vars"]:
+        v["hlo"] = v["hup"] = False
+    B["vars"] = json.loads(json.dumps(A["vars"]))
+    B["id"] = "rb%s" % k
+    B["it0"] = 0
+    reg = "c05_reg_%s.txt" % k
+    ruf = r.choice([1, 2, 3, 4])
+    if r.random() < 0.6:
+        A["it0"] = r.randint(1, 7)       # the first step of A is then usually not one at which the replicas are read
+    for c, rid, u in ((A, "A", ruf), (B, "B", 1000)):
+        c["pmf"] = c["pmf_keep"] = False
+        c["binary"] = False
+        c["meta_extra"] = ["multipleReplicas on", "replicaID %s" % rid, "replicasRegistry %s" % reg, "replicaUpdateFrequency %d" % u]
+        c["outprefix"] = "c05w%s_%s" % (rid, k)
+    A["ruf"] = ruf
+    A["registry"] = reg
+    return A, B
+
+
+def replica_oracle(c, impl, traj, fhills):
+    """walker A: own hills on schedule + the hills of the other walker, received at the first step that is a multiple of
+    replicaUpdateFrequency (pending until the next multiple of gridsUpdateFrequency)"""
+    st = steps_of(c)
+    tab, pend, ftab, fpend = [], [], [], []
+    received = False
+    traj = list(traj)
+    geom = [(v["nx"], v["lower"], v["upper"]) for v in c["vars"]]
+    nrec = 0
+    for n, (it, rel, cont, zs) in enumerate(st):
+        im = impl[n]
+        x = im["cv"]
+        deposit = (it % c["freq"] == 0) and ((rel > 0 and not cont) or c["stepzero"])
+        if deposit:
+            wgt = c["W"]
+            if c["wt"]:
+                vhere = spec_bias(c, geom, x, tab + ftab, pend + fpend)[0]
+                vown = spec_bias(c, geom, x, tab, pend)[0]
+                wgt = c["W"] * math.exp(-vhere / (c["bt"] * KB))
+            if not traj or traj[0][0] != it:
+                return ("replicas:schedule", "step %d (it=%d): no hill added by the walker" % (n, it), n), nrec
+            seen = traj.pop(0)
+            if not close(seen[1], wgt):
+                own = c["wt"] and close(seen[1], c["W"] * math.exp(-vown / (c["bt"] * KB)))
+                return ("replicas:well-tempered-height-from-own-hills-only" if own else "replicas:hill-weight",
+                        "step %d (it=%d): walker A deposits at %s a hill of weight %r; hillWeight*exp(-V/kT) with V the bias at that "
+                        "point (own hills and those received from walker B) is %r" % (n, it, x, seen[1], wgt), n), nrec
+            pend.append((it, wgt, [list(t) for t in x], [v["sigma"] for v in c["vars"]]))
+        if c["use_grids"] and it % c["gfreq"] == 0:
+            tab += pend
+            pend = []
+            ftab += fpend
+            fpend = []
+        if it % c["ruf"] == 0 and not received:
+            received = True
+            fpend = list(fhills)
+        if received:
+            nrec += 1
+        eE, eF, ins = spec_bias(c, geom, x, tab + ftab, pend + fpend)
+        if not close(im["E"], eE) or not force_close(im["F"], eF):
+            return ("replicas:energy", "step %d (it=%d, x=%s): energy %r force %s; own hills + the %d hills of walker B give %r %s" % (
+                n, it, x, im["E"], im["F"], len(fhills) if received else 0, eE, eF), n), nrec
+    return None, nrec
+
+
+def fixed_replica_case():
+    """walker B leaves three hills at 3.5; walker A, well-tempered (biasTemperature 300), starts there at
+    step 1, reads them at step 2 (replicaUpdateFrequency 2, on the absolute step): its hills are scaled by the bias of both walkers"""
+    ev = lambda zs: [("step", False, [z]) for z in zs]
+    A = _cfg("ra_w", [_var()], [], wt=True, it0=1)
+    B = _cfg("rb_w", [_var()], [], wt=True)
+    A["events"], B["events"] = ev([3.5, 3.5, 3.5, 3.25, -0.25, 3.5]), ev([3.5, 3.5, 3.5, 3.5])
+    for c, rid, u in ((A, "A", 2), (B, "B", 1000)):
+        c["meta_extra"] = ["multipleReplicas on", "replicaID %s" % rid, "replicasRegistry c05_reg_w.txt", "replicaUpdateFrequency %d" % u]
+        c["outprefix"] = "c05w%s_w" % rid
+    A["ruf"] = 2
+    return A, B
+
+
+def replica_cases(run, exe, r, d, ncases):
+    for k in ["w"] + list(range(ncases)):
+        A, B = fixed_replica_case() if k == "w" else gen_replica_case(r, k)
+        for fn in os.listdir(d):
+            if fn.startswith("c05w") or fn.startswith("c05_reg_") or fn.endswith(".files.txt"):
+                os.remove(os.path.join(d, fn))
+        outs = []
+        for c in (B, A):
+            sc = os.path.join(d, "s%s.scn" % c["id"])
+            txt = scenario_text(c, True)
+            open(sc, "w").write(txt)
+            rcv, o, ev = V.sh([exe, sc], cwd=d, timeout=120)
+            os.remove(sc)
+            try:
+                impl = parse_impl(c, o) if "CONFIG err=ok" in o else None
+                traj = parse_traj(c, o)
+            except (ValueError, IndexError, KeyError):
+                impl, traj = None, None
+            outs.append((c, txt, rcv, o, impl, traj))
+        rp = {"kind": "replicas", "scenario_B": outs[0][1], "scenario": outs[1][1]}
+        ok = all(rcv == 0 and impl is not None and traj is not None and len(impl) == len(step_events(c)) and
+                 all("E" in s_ and "F" in s_ for s_ in impl) and "OUTPREFIX err=ok" in o for (c, txt, rcv, o, impl, traj) in outs)
+        if not ok:
+            run.count("replicas%s" % k, False)
+            run.violation("crash", "a walker of a two-replica run died or lost the bias (rc=%s)" % [t[2] for t in outs], rp)
+            continue
+        badB, _ = oracle(B, outs[0][4], outs[0][5])
+        if badB:
+            run.count("replicas%s" % k, False)
+            run.violation("replicas:first-walker:" + badB[0], badB[1], rp)
+            continue
+        bad, nrec = replica_oracle(A, outs[1][4], outs[1][5], outs[0][5])
+        run.count("replicas%s" % k, nrec >= 2 and len(outs[0][5]) >= 1)
+        run.dist("replica_cases")
+        run.dist("replica_steps_with_foreign_hills", nrec)
+        if bad:
+            run.violation(bad[0], bad[1], dict(rp, step=bad[2]))
+
+
 def setup():
     V.extract_model("C05", EXTRACT, DRIVER, ["ocaml/fops.ml"])
     V.build_prog("c05sim", PROGS["c05sim"])
@@ -1324,6 +1481,7 @@ def check(run):
     cs += [gen_scn(r, "f%d" % k, REBIN_FOCUS) for k in range(20 if quick else 600)]
     cs += [gen_scn(r, "c%d" % k, RECONF_FOCUS) for k in range(25 if quick else 600)]
     cs += [gen_scn(r, "d%d" % k, dict(REBIN_FOCUS, p_reconf=0.45, p_restart=0.2)) for k in range(10 if quick else 300)]
+    cs += [gen_scn(r, "e%d" % k, EB_FOCUS) for k in range(12 if quick else 300)]
     nsample = 0
     for (c, impl, mo, txt, rcv, o, traj, mline) in run_scenarios(run, exe, model, cs, d):
         check_one(run, c, impl, mo, txt, rcv, o, traj, mline)
@@ -1331,6 +1489,7 @@ def check(run):
             nsample += 1
             run.sample({"scenario": txt.split("\n")[:45], "last_step": {k: impl[-1].get(k) for k in ("it", "E", "F", "nhills", "nnew", "noff", "geom")}})
     reload_witness(run, exe, d)
+    replica_cases(run, exe, r, d, 8 if quick else 200)
     run.cov["correspondence"].update({"scenarios": len(cs)})
 
 
